@@ -58,10 +58,17 @@ fn corrupt(rng: &mut Rng, moves: &mut Vec<String>, boards: &[Board]) {
         }
         _ => {
             // a move legal for the other side
-            let mut b = boards[i].clone();
-            b.switch_turn();
-            if let Some(m) = b.get_legal_moves().first() {
-                moves[i] = m.to_notation();
+            // the same placement with the other side to move (built through FEN, en-passant square cleared)
+            let fen = render_fen(&boards[i]);
+            let f: Vec<&str> = fen.split(' ').collect();
+            let other = format!("{} {} {} - {} {}", f[0], if f[1] == "w" { "b" } else { "w" }, f[2], f[4], f[5]);
+            let mut b = Board::from_fen(&other);
+            if !b.is_in_check(b.current_turn.opposite()) {
+                if let Some(m) = b.get_legal_moves().first() {
+                    moves[i] = m.to_notation();
+                }
+            } else {
+                moves[i] = "a1h8".into();
             }
         }
     }
